@@ -86,16 +86,17 @@ Proof. exact heartbeat_age. Qed.
 Print Assumptions C11_heartbeat_age.
 
 (* Inter-service timeout: the error handler is told "timeout between service calls" exactly at a cycle whose gap to
-   the previous one exceeds the timeout; that cycle closes the client and runs the close handler; a client only
-   ever becomes closed by such a gap or by losing its heartbeat counter *)
+   the previous one exceeds the timeout; that cycle closes the client (and, if it was still open, runs the close
+   handler: close_all_resources runs once); a client only ever becomes closed by such a gap or by losing its
+   heartbeat counter; the close handler runs only at a cycle that turns an open client into a closed one *)
 Theorem C11_interservice : forall m c s now hb ctrs ev s' r log act cl vs,
   wf s -> cfg_ok c = true -> op_ok (Cycle now hb ctrs ev) = true ->
   do_cycle m c s now hb ctrs ev = Some (s', OCycle r log act cl vs) ->
   (In L_SERVICE_TIMEOUT log <-> now > t_work s + inter_ms c) /\
-  (now > t_work s + inter_ms c -> closed s' = true /\ In L_CLOSE log) /\
+  (now > t_work s + inter_ms c -> closed s' = true /\ (closed s = false -> In L_CLOSE log)) /\
   (closed s' = true -> closed s = true \/ now > t_work s + inter_ms c \/ In L_HEARTBEAT_LOST log) /\
   (In L_HEARTBEAT_LOST log <-> now > t_keep s + KEEPALIVE_TIMEOUT_MS /\ fate_s c s ctrs = Lost) /\
-  cl = b2z (closed s') /\ (closed s = true -> closed s' = true).
+  cl = b2z (closed s') /\ (closed s = true -> closed s' = true) /\ (In L_CLOSE log -> closed s = false /\ closed s' = true).
 Proof. exact interservice_step. Qed.
 Print Assumptions C11_interservice.
 
